@@ -11,6 +11,7 @@ import Scico.Proofs.DriverDisp
 import Scico.Proofs.DriverClock
 import Scico.Proofs.DriverRaise
 import Scico.Proofs.DriverBridge
+import Scico.Proofs.DriverNan
 
 namespace Scico.Props.C15
 open Scico.Driver Scico.Driver.Spec
@@ -636,6 +637,38 @@ theorem C15_nanstop_iff (E : Env ω ρ ξ α) (cb : Option (Callback ω)) (d : D
   · obtain ⟨o, _⟩ := solve_trip E cb d hr.labels hr.past j hj hc ht
     exact ⟨⟨fun _ => ⟨j, hj, (tripsB_iff E cb d.world d.nanstop j).mp ht⟩, fun _ => o⟩, (by rw [o]; simp)⟩
 
+/-- **Callbacks that assign `optimizer.nanstop`.**  `solve` reads the attribute afresh in every
+    iteration, so what counts for iteration `j` is the value the callbacks of the earlier iterations
+    left (`nanAt`; the value at the call for `j = 0`).  `solveN` — the transcription with such a
+    callback — is exactly `solve` of an optimiser that carries the attribute in its state
+    (`solveN_rel`), hence: the exception is raised iff in some iteration `j` the attribute is on
+    *at that moment* and a working variable is non-finite after the step; no other exception occurs;
+    and it is raised in the FIRST such iteration, with the counter at `itnum + j` and exactly the
+    `j` earlier records. -/
+theorem C15_callback_nanstop (E : Env ω ρ ξ α) (c : CallbackN ω) (d : Drv ω ρ L) (hr : Ready d) :
+    let trips := fun j => nanAt E c d.world d.nanstop j = true ∧
+      hasNonFinite E.fin (E.vars (afterStep E (some c.toCallback) d.world j))
+    ((solveN E c d).2 = .nan ↔ ∃ j < d.maxiter.toNat, trips j) ∧ (solveN E c d).2 ≠ .key ∧
+      ∀ j < d.maxiter.toNat, (∀ k < j, ¬ trips k) → trips j →
+        (solveN E c d).1.itnum = d.itnum + (j : Int) ∧ (solveN E c d).1.rows.length = d.rows.length + j := by
+  intro trips
+  have hr' : Ready (liftN d) := ⟨hr.labels, hr.past⟩
+  obtain ⟨ho, hs⟩ := solveN_rel E c d
+  obtain ⟨hiff, hkey⟩ := C15_nanstop_iff (envN E) (some (cbN c)) (liftN d) hr'
+  have htr : ∀ j, tripsAt (envN E) (some (cbN c)) (liftN d).world (liftN d).nanstop j ↔ trips j :=
+    fun j => tripsAtN E c d.world d.nanstop j
+  refine ⟨?_, by rw [← ho]; exact hkey, ?_⟩
+  · rw [← ho, hiff]
+    constructor
+    · rintro ⟨j, hj, h⟩; exact ⟨j, hj, (htr j).mp h⟩
+    · rintro ⟨j, hj, h⟩; exact ⟨j, hj, (htr j).mpr h⟩
+  · intro j hj hbefore hat
+    obtain ⟨_, hi, _, hrows, _⟩ := C15_nanstop (envN E) (some (cbN c)) (liftN d) hr' j hj
+      (fun k hk h => hbefore k hk ((htr k).mp h)) ((htr j).mpr hat)
+    refine ⟨by rw [← hs.itnum, hi]; rfl, ?_⟩
+    rw [← hs.rows, hrows]
+    simp [liftN]
+
 /-- **`maxiter = 0`** (or negative): no step, no record, no callback, the counter and the clock
     are unchanged, the timer reads what it read (the defect of the pinned tree — the counter was
     incremented — is repaired by commit 4b50827). -/
@@ -829,6 +862,16 @@ example :
 -- the NaN stop in the LAST iteration of a call: `maxiter = 4` from the fresh example object trips in its 4th step
 example : (solve exEnv none (exDrv.setMaxiter 4)).2 = .nan ∧ (solve exEnv none (exDrv.setMaxiter 4)).1.itnum = 5 ∧
     (solve exEnv none (exDrv.setMaxiter 4)).1.rows.length = 3 ∧ (solve exEnv none (exDrv.setMaxiter 3)).2 = .ok := by decide
+
+/-- a callback that switches the NaN stop off in the iteration numbered 3 (second iteration of the example) -/
+def exCbNanOff : CallbackN Nat := { run := id, ticks := fun _ => 1, setNan := fun w => if w = 2 then some false else none }
+
+-- from the example object (nanstop on, 4th step non-finite) six iterations complete: the test of the 4th
+-- iteration finds the attribute off; with a callback that assigns nothing the same call stops there
+example : (solveN exEnv exCbNanOff (exDrv.setMaxiter 6)).2 = .ok ∧
+    (solveN exEnv exCbNanOff (exDrv.setMaxiter 6)).1.rows.length = 6 ∧
+    (solveN exEnv { run := id, ticks := fun _ => 1, setNan := fun _ => none } (exDrv.setMaxiter 6)).2 = .nan ∧
+    nanAt exEnv exCbNanOff 0 true 3 = false := by decide
 
 /-- a callback that asks for "no further iterations" by `optimizer.maxiter = 0` -/
 def exCbStop : CallbackX Nat := { run := id, ticks := fun _ => 1, ctl := fun _ i _ => (i, 0) }
